@@ -6,8 +6,9 @@ REPO = os.environ.get("MATRIX_REPO", "/repo")
 def run_all(timeout=1800):
     env = dict(os.environ)
     if REPO != '/repo':
-        env.update({'VERIF_REPO': REPO, 'VERIF_CACHE_TAG': '-alt', 'VERIF_EVIDENCE': '/tmp/evidence-alt'})
-    r = subprocess.run(['./check', 'ALL'], cwd='/verif', capture_output=True, text=True, timeout=timeout, env=env)
+        tag = os.path.basename(REPO.rstrip('/'))
+        env.update({'VERIF_REPO': REPO, 'VERIF_CACHE_TAG': '-' + tag, 'VERIF_EVIDENCE': '/tmp/evidence-' + tag})
+    r = subprocess.run(['./check', 'ALL'], cwd=os.environ.get('VERIF_ROOT', '/verif'), capture_output=True, text=True, timeout=timeout, env=env)
     out, cur = {}, []
     for l in r.stdout.splitlines():
         if l.startswith('RESULT '):
